@@ -4,6 +4,7 @@ go 1.23.0
 
 require (
 	github.com/coreruleset/crs-toolchain/v2 v2.0.0
+	github.com/itchyny/rassemble-go v0.1.2
 	github.com/rs/zerolog v1.34.0
 )
 
@@ -19,7 +20,6 @@ require (
 	github.com/hashicorp/go-cleanhttp v0.5.2 // indirect
 	github.com/hashicorp/go-retryablehttp v0.7.7 // indirect
 	github.com/hashicorp/go-version v1.7.0 // indirect
-	github.com/itchyny/rassemble-go v0.1.2 // indirect
 	github.com/mattn/go-colorable v0.1.13 // indirect
 	github.com/mattn/go-isatty v0.0.20 // indirect
 	github.com/spf13/cobra v1.9.1 // indirect
